@@ -69,7 +69,7 @@ func genShape(r *rand.Rand, sig Signal, items int) []ResSpec {
 	return res
 }
 
-var tenantValues = [][]string{{"a"}, {"b"}, {"c"}, {"a", "b"}, {""}, nil, {}, {"A"}, {"d"}, {"e"}}
+var tenantValues = [][]string{{"a"}, {"b"}, {"c"}, {"a", "b"}, {"a", "c"}, {"b", "a"}, {"a", "b", "c"}, {""}, {"", "a"}, nil, {}, {"A"}, {"d"}, {"e"}}
 
 // GenScenario draws one scenario.
 func GenScenario(r *rand.Rand, p Profile) *Scenario {
